@@ -112,6 +112,12 @@ def oracle(line, meta):
             if tl < ENDS_MIN or hd < ENDS_MIN:
                 return "ends: channel %d: the first / last 1024 samples come out %.1f / %.1f dB under the signal (whole signal %.1f dB): the stream's ends are not where the input's are" % (
                     c, hd / 10.0, tl / 10.0, int(snrs[c]) / 10.0)
+        if cls == 9 and not snrs[c].startswith("S") and not short:
+            # one speaker at a time: each channel is reconstructed from what was written for it although every partner of its coupling steps was
+            # silent meanwhile (unchanged encoder, 6 layouts x 5 rates: >= 15.5 dB at q=-0.1, >= 23.9 dB from q=0.3 on)
+            need = 150 if (mode == 0 and q >= 0.3) else 90
+            if int(snrs[c]) < need:
+                return "solo: channel %d, sounding alone in its slot, comes out at %.1f dB SNR (bound %.1f dB at this setting)" % (c, int(snrs[c]) / 10.0, need / 10.0)
         if cls in LAGCLASSES and lags[c] != "0":
             return "delay: channel %d of the output matches the input best at lag %s, not 0" % (c, lags[c])
         # sparse clicks / bursts can leak between point-coupled channels at the lowest qualities: identity is judged on dense content
@@ -172,6 +178,10 @@ def run(chk):
         q = chk.rng.choice([0.3, 0.5, 0.7, 0.9])
         gens.append((["case %d" % k, "sig %d %d 0 %s %d %d %d %d" % (ch, rate, q, nn, cls, 7 + k, vis)], (ch, rate, 0, q, cls, vis)))
         k += 1
+    # one speaker at a time, every multichannel layout family (coupled stereo, 5.1 with its chained coupling steps, uncoupled)
+    for (ch, rate, q) in ((6, 44100, 0.3), (6, 48000, 0.1), (6, 44100, 0.7), (2, 44100, 0.4), (3, 44100, 0.5), (4, 32000, 0.5), (5, 44100, 0.3), (8, 48000, 0.5), (2, 22050, 0.1), (6, 44100, -0.1)):
+        gens.append((["case %d" % k, "sig %d %d 0 %s 60000 9 %d" % (ch, rate, q, 7 + k)], (ch, rate, 0, q, 9)))
+        k += 1
     res = vlib.run_harness_only("c06", [g[0] for g in gens], variant="plain", timeout=3000)
     crash, ofail = [], []
     hist = {}
@@ -207,7 +217,7 @@ def run(chk):
     if broken and not crash and not ofail:
         chk.violation("proof", "proof obligation no longer checks: " + "; ".join(broken)[:600], {"broken": broken, "lean_log": getattr(chk, "lean_log", "")[-3000:]}, False)
     chk.coverage["rule"] = ("signal family (7 classes: multitone with distinct partials per channel, sweep, low-passed independent noise, click trains with distinct offsets, multitone with a silent "
-                            "first channel, tone bursts with exact zeros, noise bursts, sharp onsets in the first channel only, a quiet low tone next to / after a loud one) x 1-8 channels x 7 rates x quality -0.1..1.0 / managed nominal rates; measured per channel on the decoded "
+                            "first channel, tone bursts with exact zeros, noise bursts, sharp onsets in the first channel only, a quiet low tone next to / after a loud one, one speaker at a time) x 1-8 channels x 7 rates x quality -0.1..1.0 / managed nominal rates; measured per channel on the decoded "
                             "output: finiteness, length, peak ratio, best cross-correlation lag over {0,±1..±4,±8,...,±2048} (aperiodic classes), which input channel it matches, SNR against its own input; "
                             "SNR bound = per-class minimum measured on the unchanged tree minus 6 dB, interpolated and made monotone in the quality setting; and per cell (class, channels, rate, "
                             "quality or nominal bitrate): the cell's minimum over three lengths (two seeds for noise) measured by tools/calibrate_c06.py minus 6 dB, plus the worst 256-sample window's error "
